@@ -221,6 +221,17 @@ func runC06(rc *RunCtx) {
 			})
 		}
 	}
+	// In a fifth of the runs the listener is closed (a reload or a shutdown) while
+	// probes are pending: the handlers keep absorbing them until their deadlines.
+	stopEarly := G.Draw(5) == 0
+	if stopEarly {
+		at := T * time.Duration(1+G.Draw(8)) / 10
+		simrt.GoNamed("c06-listener-close", func() {
+			simrt.Sleep(at)
+			srv.Stop()
+			simrt.Probe("listener_closed_while_probes_pending")
+		})
+	}
 	window := 10 * T
 	for i, p := range probes {
 		p := p
@@ -348,8 +359,13 @@ func runC06(rc *RunCtx) {
 	skew := simrt.Skew()
 	for _, p := range probes {
 		if p.c == nil {
-			rc.Failf("connect-refused", "probe %d: %v", p.k, p.writeErr)
+			if !stopEarly {
+				rc.Failf("connect-refused", "probe %d: %v", p.k, p.writeErr)
+			}
 			continue
+		}
+		if stopEarly && !p.c.Rec.Accepted {
+			continue // arrived after the listener was closed: never served
 		}
 		srvEnd := p.c.Peer()
 		finRecv, gotFin := p.c.Has("fin-recv")
